@@ -28,6 +28,8 @@ Base == <<
   << S1("select"), S1("name"), S1("from"), S1("."), S1("where"), S1("name"), <<"=~", "~=", "regexp", "rx">>, S1("'^[a-c]'") >>,
   << S1("select"), S1("name"), S1("from"), S1("."), S1("where"), S1("name"), <<"!=~", "!~=", "notrx">>, S1("'log$'") >>,
   << S1("select"), S1("name"), S1("from"), S1("."), S1("where"), S1("name"), <<"not like", "notlike">>, S1("'%.txt'"), S1("and"), S1("name"), S1("like"), S1("'%.%'") >>,
+  \* (a bracketed operand that starts with a wildcard / arithmetic character, in both bracket kinds)
+  << S1("select"), S1("name"), S1("from"), S1("."), S1("where"), S1("name"), S1("like"), <<"(%.txt)", "{%.txt}">>, S1("or"), S1("name"), S1("="), <<"(*.log)", "{*.log}">> >>,
   << S1("select"), S1("name"), S1("from"), S1("."), S1("where"), S1("size"), S1("between"), S1("9"), S1("and"), S1("1024"), S1("limit"), S1("5") >>,
   \* 9: root options
   << S1("select"), S1("path"), S1("from"), S1("."), <<"depth", "maxdepth">>, S1("1") >>,
@@ -48,7 +50,7 @@ Base == <<
      <<"format_time(size)", "pretty_time(size)">>, S1("from"), S1(".") >>,
   << S1("select"), <<"current_date()", "cur_date()", "curdate()", "current_date", "curdate">>, S1(","), S1("name"), S1("from"), S1(".") >>,
   << S1("select"), S1("name"), S1(","), <<"dayofweek(modified)", "dow(modified)">>, S1(","), <<"current_uid()", "current_uid">>, S1("from"), S1(".") >>,
-  << S1("select"), <<"stddev_pop(size)", "stddev(size)", "std(size)">>, S1(","), <<"var_pop(size)", "variance(size)">>, S1(","), S1("count(*)"), S1("from"), S1(".") >>,
+  << S1("select"), <<"stddev_pop(size)", "stddev(size)", "std(size)">>, S1(","), <<"var_pop(size)", "variance(size)">>, S1(","), <<"count(*)", "count{*}", "COUNT(*)">>, S1("from"), S1(".") >>,
   \* 24: column aliases
   << S1("select"), S1("name"), S1(","), <<"is_pipe", "is_fifo">>, S1(","), <<"is_char", "is_character">>, S1(","), <<"user_all", "user_rwx">>, S1(","),
      <<"group_all", "group_rwx">>, S1(","), <<"other_all", "other_rwx">>, S1("from"), S1(".") >>,
@@ -122,7 +124,7 @@ Class == (IF alt > 1 THEN (IF Base[q][slot][alt] = "" THEN "omit:" \o Base[q][sl
           ELSE IF casing # "asis" THEN "case:" \o Base[q][slot][alt] ELSE "canonical")
          \o (IF casing # "asis" /\ alt > 1 THEN "/case" ELSE "")
          \o (IF split = 0 THEN "/onearg" ELSE IF split = 1000 THEN "/fullsplit" ELSE "/split2")
-Scenario == [prop |-> "C11", world |-> "W11", class |-> Class, q |-> q, unordered |-> (q = 26),
+Scenario == [prop |-> "C11", world |-> "W11", class |-> Class, q |-> q, unordered |-> (\E k \in 1 .. Len(Base[q]) : Base[q][k][1] = "group"),
              env |-> [tz |-> "UTC", cwd |-> 0, fake_epoch |-> 1493640000, config |-> [debug |-> TRUE]],
              runs |-> << [tag |-> "canon", fmt |-> "text", argv |-> Argv(FALSE)], [tag |-> "variant", fmt |-> "text", argv |-> Argv(TRUE)] >>]
 X(i, p, k, nm, cont, tgt) == [id |-> i, parent |-> p, kind |-> k, namec |-> nm, name |-> Str(nm), content |-> cont, mode |-> IF k = "dir" THEN 493 ELSE 420,
